@@ -15,6 +15,32 @@ import CTM.Model.Holm
 namespace CTM.RefMarkers
 open CTM.Holm
 
+/-! ### Welch statistic (rational parts of `utils/stats_utils.py: _calculate_tt_nu`) -/
+
+/-- `nu_num = var1/n1 + var2/n2` -/
+def nuNum (v1 : Rat) (n1 : Nat) (v2 : Rat) (n2 : Nat) : Rat := v1 / n1 + v2 / n2
+
+/-- `nu_denom` before its `> 0` guard; only meaningful for `n1, n2 ≥ 2` (for a 1-cell cluster
+numpy produces `0/0 = nan`, which the guard turns into 1) -/
+def nuDenom (v1 : Rat) (n1 : Nat) (v2 : Rat) (n2 : Nat) : Rat :=
+  v1 * v1 / ((n1 : Rat) * n1 * n1 - (n1 : Rat) * n1) + v2 * v2 / ((n2 : Rat) * n2 * n2 - (n2 : Rat) * n2)
+
+/-- degrees of freedom `nu`; `none` when a cluster has fewer than two cells (NaN path, not
+modelled; both routes skip such pairs) -/
+def welchNu (v1 : Rat) (n1 : Nat) (v2 : Rat) (n2 : Nat) : Option Rat :=
+  if n1 < 2 ∨ n2 < 2 then none
+  else
+    let d := nuDenom v1 n1 v2 n2
+    let d := if d > 0 then d else 1
+    some (nuNum v1 n1 v2 n2 * nuNum v1 n1 v2 n2 / d)
+
+/-- the square of the t statistic (`denom = sqrt(nu_num)`, replaced by `1e-10` when it is not
+positive); its sign is the sign of `mean1 - mean2` -/
+def welchTSq (m1 v1 : Rat) (n1 : Nat) (m2 v2 : Rat) (n2 : Nat) : Rat :=
+  let s := nuNum v1 n1 v2 n2
+  if s > 0 then (m1 - m2) * (m1 - m2) / s
+  else (m1 - m2) * (m1 - m2) / ((1 / 10000000000) * (1 / 10000000000))
+
 /-! ### thresholds, scores -/
 
 structure Thresholds where
